@@ -359,3 +359,118 @@ def _register():
 
 
 _register()
+
+
+# =================================================================================================
+# bounded native: left-handed cells; a k-point list with exactly one (non-Gamma) k-point
+# =================================================================================================
+
+
+class NativeCases:
+    def __init__(self, fn, what):
+        self.fn, self.what = fn, what
+
+    def __call__(self, ob, tier, seed):
+        from pycv.framework import BOUNDED_OK
+
+        try:
+            bad = self.fn(np.random.default_rng(seed))
+        except Exception as e:  # noqa: BLE001
+            bad = [dict(raised=f"{type(e).__name__}: {e}")]
+        if bad:
+            return Result(REFUTED, backend="native", witness=dict(seed=seed), replayed=True, replay_info=dict(failing=bad[:6]), detail=f"{self.what}: {bad[0]}")
+        return Result(BOUNDED_OK, backend="native", detail=f"bounded: {self.what}")
+
+    def replay(self, wit):
+        bad = self.fn(np.random.default_rng(wit.get("seed", 0)))
+        return bool(bad), dict(failing=bad[:6])
+
+
+def nat_left_handed(rng):
+    """Cells whose lattice matrix has a NEGATIVE determinant (two vectors swapped, one inverted): the overlap operator is |det a| times the identity,
+    the Laplacian is diagonal with the eigenvalues -|det a| |G + k|^2 (|G + k|^2 from an independently built reciprocal lattice) and Linv is its pseudo-inverse."""
+    import eminus
+    from eminus import Atoms
+
+    eminus.config.backend = "numpy"
+    eminus.config.verbose = "critical"
+    a0 = np.array([[6.0, 0.4, 0.2], [0.3, 6.5, 0.5], [0.1, 0.6, 7.0]])
+    bad = []
+    for name, a in (("right-handed", a0), ("two vectors swapped", a0[[1, 0, 2]]), ("one vector inverted", a0 * np.array([[1], [1], [-1]])), ("cyclic order", a0[[1, 2, 0]])):
+        at = Atoms("He", [[0.1, 0.2, 0.3]], ecut=3, a=a)
+        at.s = [6, 5, 4]
+        at.set_k([[0.0, 0.0, 0.0], [0.21, -0.13, 0.17]], [0.4, 0.6])
+        det = abs(np.linalg.det(a))
+        err = {}
+        err["Omega vs |det a|"] = abs(float(at.Omega) - det) / det
+        w = rnd(rng, at.Ns, 2)
+        err["O(W) vs |det a| W"] = float(np.abs(np.asarray(at.O(w)) - det * w).max())
+        # independent |G + k|^2: index triples of the active plane waves times the reciprocal lattice 2 pi inv(a)^T
+        b = 2 * np.pi * np.linalg.inv(a).T
+        for ik in range(2):
+            Gk = np.asarray(at.G)[np.asarray(at.active[ik][0])] + np.asarray(at.kpts.k)[ik]
+            m = np.asarray(at.G) @ np.linalg.inv(b)
+            err["G are integer combinations of 2 pi inv(a)^T"] = float(np.abs(m - np.rint(m)).max())
+            g2 = np.sum(Gk**2, axis=1)
+            wa = rnd(rng, len(g2), 2)
+            err[f"L(W) vs -|det a| |G+k|^2 W (k-point {ik})"] = float(np.abs(np.asarray(at.L(wa, ik)) + det * g2[:, None] * wa).max())
+        z = w.copy()
+        z[0] = 0
+        err["Linv(L(W))"] = float(np.abs(np.nan_to_num(np.asarray(at.Linv(at.L(w)))) - z).max())
+        g2f = np.sum(np.asarray(at.G) ** 2, axis=1)
+        want = np.zeros_like(w)
+        want[1:] = -w[1:] / (det * g2f[1:, None])
+        err["Linv(W) vs -W / (|det a| |G|^2)"] = float(np.abs(np.asarray(at.Linv(w)) - want).max())
+        for k, v in err.items():
+            if not v <= 1e-9:
+                bad.append(dict(cell=name, clause=k, error=v))
+    return bad
+
+
+def nat_single_kpoint_list(rng):
+    """A k-point LIST with exactly one k-point that is not Gamma (set_k with one shifted point; a 1x1x1 mesh with a shift), restricted basis: the
+    transforms address the active set of THAT k-point (same result as the explicit ik = 0 call), are mutual inverses and mutually adjoint."""
+    import eminus
+    from eminus import Atoms
+
+    eminus.config.backend = "numpy"
+    eminus.config.verbose = "critical"
+    bad = []
+    for name, setup in (("set_k([[0.31, -0.22, 0.17]])", lambda at: at.set_k([[0.31, -0.22, 0.17]])),
+                        ("kmesh = 1, kshift = [0.2, 0.1, -0.3]", lambda at: (setattr(at.kpts, "kmesh", [1, 1, 1]), setattr(at.kpts, "kshift", [0.2, 0.1, -0.3]), at.build())),
+                        ("two k-points (control)", lambda at: at.set_k([[0.0, 0.0, 0.0], [0.31, -0.22, 0.17]], [0.5, 0.5]))):
+        for Nspin in (1, 2):
+            at = Atoms("He", [[0.1, 0.2, 0.3]], ecut=3, a=[[4.0, 0.3, 0.1], [0.2, 4.5, 0.4], [0.5, 0.1, 5.0]], unrestricted=(Nspin == 2))
+            at.s = [7, 6, 5]
+            at.build()
+            setup(at)
+            Nk = at.kpts.Nk
+            npw = [len(at.Gk2c[ik]) for ik in range(Nk)]
+            W = [rnd(rng, Nspin, npw[ik], 2) for ik in range(Nk)]
+            f = [rnd(rng, Nspin, at.Ns, 2) for ik in range(Nk)]
+            err = {}
+            IW = at.I(W)
+            err["I(list)[0] vs I(W[0], ik=0)"] = float(np.abs(np.asarray(IW[0]) - np.asarray(at.I(W[0], 0))).max())
+            Jf = at.J(f, full=False)
+            if np.shape(Jf[0]) != np.shape(W[0]):
+                bad.append(dict(k_points=name, Nspin=Nspin, clause="J(f, full=False)", shape=list(np.shape(Jf[0])), active_set=npw[0]))
+                continue
+            err["J(I(W), full=False) vs W"] = max(float(np.abs(np.asarray(x) - w).max()) for x, w in zip(at.J(IW, full=False), W))
+            Idf = at.Idag(f)
+            err["<Idag f | W> vs <f | I W>"] = max(abs(np.vdot(np.asarray(a_), w) - np.vdot(g, np.asarray(b_))) for a_, w, g, b_ in zip(Idf, W, f, IW))
+            Jdw = at.Jdag(W)
+            err["<Jdag W | f> vs <W | J f>"] = max(abs(np.vdot(np.asarray(a_), g) - np.vdot(w, np.asarray(b_))) for a_, g, w, b_ in zip(Jdw, f, W, Jf))
+            err["Jdag(list)[0] vs Jdag(W[0], ik=0)"] = float(np.abs(np.asarray(Jdw[0]) - np.asarray(at.Jdag(W[0], 0))).max())
+            for k, v in err.items():
+                if not v <= 1e-9:
+                    bad.append(dict(k_points=name, Nspin=Nspin, clause=k, error=float(v)))
+    return bad
+
+
+register(Obligation(name="C03.O_L_Linv.left_handed_cells", prop=PROP, engine="B", bounded=True, run=NativeCases(nat_left_handed, "left-handed cells: O = |det a|, L = -|det a| |G + k|^2 (independent reciprocal lattice), Linv its pseudo-inverse"),
+                    functions=["eminus.operators:O", "eminus.operators:L", "eminus.operators:Linv", "eminus.atoms:Atoms.a"],
+                    doc="BOUNDED: overlap / Laplacian / inverse Laplacian carry the POSITIVE cell volume |det a| for lattice matrices of either handedness"))
+register(Obligation(name="C03.transforms.list_with_one_shifted_kpoint", prop=PROP, engine="B", bounded=True,
+                    run=NativeCases(nat_single_kpoint_list, "k-point lists with one shifted k-point: transforms use that k-point's active set, inverse and adjoint pairs"),
+                    functions=["eminus.operators:I", "eminus.operators:J", "eminus.operators:Idag", "eminus.operators:Jdag", "eminus.utils:handle_k"],
+                    doc="BOUNDED: transforms of a one-entry k-point list (restricted basis) act as the explicit ik = 0 calls: mutual inverses, mutual adjoints"))
